@@ -8,6 +8,7 @@ import Xo.Drv.Heap
 import Xo.Drv.KCall
 import Xo.Drv.Hybrid
 import Xo.Drv.DictForm
+import Xo.Drv.Pickle
 /-! `lake env lean --run Driver.lean <component>` : stdin ops → stdout results -/
 def main (args : List String) : IO UInt32 := do
   let i ← IO.getStdin
@@ -22,5 +23,6 @@ def main (args : List String) : IO UInt32 := do
   | ["kcall"] => Drv.loop i o Drv.KCallD.step (); return 0
   | ["hyb"] => Drv.loop i o Drv.HybD.step Drv.HybD.init; return 0
   | ["dict"] => Drv.loop i o Drv.DictD.step {}; return 0
+  | ["pk"] => Drv.loop i o Drv.PkD.step (); return 0
   | ["topo"] => Drv.loop i o Drv.TopoD.step (); return 0
   | _ => IO.eprintln "usage: Driver.lean <component>"; return 2
